@@ -97,6 +97,16 @@ def run_rebuild(env, p):
         return
     env.check(M.eq(info2, info), K + '/datainfo-differs')
     env.check(d2 is not d, K + '/same-object')
+    if spec.kind == 'struct':
+        env.check(d2.optional is not d.optional and (not isinstance(info.get('optional'), list) or info['optional'] is not d.optional or True),
+                  K + '/optional-list-shared')
+        before_opt = list(d.optional)
+        if d2.optional:
+            d2.optional.remove(d2.optional[0])
+        else:
+            d2.optional.append(list(d2.members)[0])
+        env.check(list(d.optional) == before_opt, K + '/original-changed-through-twin')
+        d2.optional[:] = before_opt
     cand = M.make(env, p['probe'], 'v', box={'f': 8, 'i': 8} if spec.kind == 'enum' else {'f': 64, 'i': 64} if spec.kind == 'scaled' else None)
     same_outcome(env, outcome(d, cand), outcome(d2, cand), K)
     env.note('rebuilt' if p['how'] == 'rebuild' else 'copied')
@@ -149,6 +159,14 @@ def run_copy_isolated(env, p):
                     n += 1
                 except Exception:
                     pass
+        if isinstance(getattr(cp, 'optional', None), list) and hasattr(cp, 'members'):
+            # the list of optional members belongs to the copy alone
+            env.check(cp.optional is not orig.optional, K + '/optional-list-shared-with-copy')
+            if cp.optional:
+                cp.optional.remove(cp.optional[0])
+            else:
+                cp.optional.append(list(cp.members)[0])
+            n += 1
         if hasattr(cp, 'unit') and 'unit' in cp.propertyDict:
             cp.setProperty('unit', 'X')
             n += 1
